@@ -378,6 +378,66 @@ Section Dry.
     - reflexivity.
     - apply negb_true_iff in H. rewrite H. reflexivity.
   Qed.
+  (* ---------------------------------------------------------------- *)
+  (* the command layer                                                  *)
+
+  (* every value validateDryRunOptionFlag accepts is a documented "no" or a spelling isDryRun
+     treats as dry: the command layer cannot accept a dry-run request that the action does not
+     recognise *)
+  Lemma cmd_accepts_only_known s :
+    dry_opt_allowed s = true -> In s ["none"; "false"] \/ is_dry_run false s = true.
+  Proof.
+    unfold dry_opt_allowed. simpl. rewrite !orb_true_iff.
+    intros [H|[H|[H|[H|[H|H]]]]]; try discriminate; apply String.eqb_eq in H; subst s; simpl; auto.
+  Qed.
+
+  Lemma allowed_dry_request_is_dry opt :
+    dry_opt_allowed opt = true -> str_in opt ["none"; "false"] = false -> forall b, is_dry_run b opt = true.
+  Proof.
+    intros Ha Hn b. destruct (cmd_accepts_only_known opt Ha) as [Hi|Hd].
+    - exfalso. simpl in Hi. unfold str_in in Hn. simpl in Hn.
+      destruct Hi as [<-|[<-|[]]]; simpl in Hn; discriminate.
+    - unfold is_dry_run in *. destruct b; auto.
+  Qed.
+
+  Lemma fb_with_flag fl n b m : fb (with_flag fl n b) m = if String.eqb n m then b else fb fl m.
+  Proof. unfold fb, with_flag. cbn [xf_on]. apply fb_fset. Qed.
+
+  Lemma x_cmd_dry g k a fl c :
+    cmd_dry_request k a = true -> all_xeff (dry_effect true) (x_cmd rn ns g k a fl c).
+  Proof.
+    intros H. unfold x_cmd.
+    assert (forall fl' opt, dry_opt_allowed opt = true -> str_in opt ["none"; "false"] = false ->
+              all_xeff (dry_effect true) (x_install rn ns g (with_opt fl' opt) c) /\
+              all_xeff (dry_effect true) (x_upgrade rn ns g (with_opt fl' opt) c)) as HS.
+    { intros fl' opt Ha Hn. pose proof (allowed_dry_request_is_dry opt Ha Hn) as Hd.
+      split; (eapply all_xeff_weaken; [|first [apply x_install_dry | apply x_upgrade_dry]; cbn [xf_opt with_opt]; apply Hd]);
+        intros e He; destruct (lookups_of _ _); auto using dry_effect_mono. }
+    cbv zeta. destruct k; cbn [cmd_dry_request] in H.
+    - destruct a as [a|]; [|discriminate]. apply negb_true_iff in H.
+      remember (cmd_default_opt (cmd_string_opt (Some a))) as opt.
+      destruct (dry_opt_allowed opt) eqn:Ha; [|constructor]. exact (proj1 (HS fl _ Ha H)).
+    - destruct a as [a|]; [|discriminate]. apply negb_true_iff in H.
+      remember (cmd_default_opt (cmd_string_opt (Some a))) as opt.
+      destruct (dry_opt_allowed opt) eqn:Ha; [|constructor]. exact (proj2 (HS fl _ Ha H)).
+    - destruct a as [a|]; [|discriminate]. apply negb_true_iff in H.
+      remember (cmd_default_opt (cmd_string_opt (Some a))) as opt.
+      apply all_xeff_bind; [apply all_xeff_perform; exact I|]. intros reach.
+      destruct reach; cbn [negb]; [|constructor].
+      apply all_xeff_bind; [apply all_xeff_perform; exact I|]. intros h.
+      match goal with |- all_xeff _ (if ?b then _ else _) => destruct b end;
+        (destruct (dry_opt_allowed opt) eqn:Ha; [|constructor]).
+      + exact (proj1 (HS (with_flag fl "Replace" _) _ Ha H)).
+      + exact (proj2 (HS fl _ Ha H)).
+    - destruct a as [[v|]|]; try discriminate; unfold cmd_bool_opt.
+      + destruct (parse_bool v) as [[|]|]; try discriminate; [|constructor].
+        eapply all_xeff_weaken; [apply dry_effect_mono|]. apply x_rollback_dry. rewrite fb_with_flag. reflexivity.
+      + eapply all_xeff_weaken; [apply dry_effect_mono|]. apply x_rollback_dry. rewrite fb_with_flag. reflexivity.
+    - destruct a as [[v|]|]; try discriminate; unfold cmd_bool_opt.
+      + destruct (parse_bool v) as [[|]|]; try discriminate; [|constructor].
+        eapply all_xeff_weaken; [apply dry_effect_mono|]. apply x_uninstall_dry. rewrite fb_with_flag. reflexivity.
+      + eapply all_xeff_weaken; [apply dry_effect_mono|]. apply x_uninstall_dry. rewrite fb_with_flag. reflexivity.
+  Qed.
 End Dry.
 
 (* ------------------------------------------------------------------ *)
@@ -416,7 +476,8 @@ Proof.
     - eapply all_xeff_weaken; [apply dry_effect_mono|]. now apply x_rollback_dry.
     - eapply all_xeff_weaken; [apply dry_effect_mono|]. now apply x_uninstall_dry.
     - eapply all_xeff_weaken; [|apply x_template_dry].
-      intros e He. destruct (lookups_of _ _); auto using dry_effect_mono. }
+      intros e He. destruct (lookups_of _ _); auto using dry_effect_mono.
+    - now apply x_cmd_dry. }
   split; [exact HA|].
   eapply all_xeff_weaken; [|exact HA]. intros e He. exact (dry_effect_safe _ _ He).
 Qed.
@@ -619,3 +680,12 @@ Lemma upgrade_is_checks_then_tail :
                   end)
       end).
 Proof. intros rn ns fl cid vid mani hks H. rewrite upgrade_split, H. reflexivity. Qed.
+
+Lemma x_cmd_no_write :
+  forall (rn ns : string) (g : xcfg) (k : cmdkind) (a : dry_arg) (fl : xflags) (c : xchart),
+    cmd_dry_request k a = true ->
+    all_xeff (fun e => x_cluster_mut e = false /\ x_store_write e = false) (x_cmd rn ns g k a fl c).
+Proof.
+  intros rn ns g k a fl c H. eapply all_xeff_weaken; [|apply x_cmd_dry; exact H].
+  intros e He. exact (dry_effect_safe _ _ He).
+Qed.
